@@ -829,10 +829,12 @@ func describe(rs []reach) []string {
 func init() {
 	reg.Register(&reg.Prop{
 		ID: "C17", Level: "exploration", Race: true, RaceIsViolation: false,
-		Rule:  "two interleaved case kinds. RESERVED (2 of 3 quick, 5 of 7 thorough): generated world = 1-3 weighted NodePools (shared or own catalogs of 3-8 types) whose capacity-type requirement mostly admits `reserved`, reserved offerings with reservation ids shared across instance types, zones and pools (capacities 0-3, occasionally disagreeing advertisements, some unavailable), 0-1 daemonsets, ReservedCapacity gate on (85%) or off (negative control), + batch of 2-14 pending pods (100m-7 CPU; zone / capacity-type incl. reserved / family / reservation-id selectors, preferred terms, tolerations) scheduled by the real Provisioner.Schedule (strict reserved mode) with parallelism 1/4/8; every case is re-run on an identical fresh world with a different worker count (judged too; outcome equality is a counter only). DRA (the rest): see dra.go. A reserved case is non-trivial when a NodeClaim or a reserved-offering deferral was judged; distinct by (gate, #pinned claims, multi-id pins, narrowed pins, #fully committed ids, zero-capacity ids, #deferred pods, failed pods, #pools, own catalogs, parallelism); DRA cases are distinct by (device kinds, #claims allocated, sharing shape, parallelism).",
+		Rule:  "two interleaved case kinds. RESERVED (2 of 3 quick, 5 of 7 thorough): generated world = 1-3 weighted NodePools (shared or own catalogs of 3-8 types) whose capacity-type requirement mostly admits `reserved`, reserved offerings with reservation ids shared across instance types, zones and pools (capacities 0-3, occasionally disagreeing advertisements, some unavailable), 0-1 daemonsets, ReservedCapacity gate on (85%) or off (negative control), + batch of 2-14 pending pods (100m-7 CPU; zone / capacity-type incl. reserved / family / reservation-id selectors, preferred terms, tolerations) scheduled by the real Provisioner.Schedule (strict reserved mode) with parallelism 1/4/8; every case is re-run on an identical fresh world with a different worker count (judged too; outcome equality is a counter only). DRA (the rest): generated world = 2-5 instance types carrying ResourceSliceTemplates (exclusive GPUs with a model attribute, multi-allocatable vGPUs with a consumable memory capacity, partitionable cards drawing from a shared counter set), 1-2 NodePools, published ResourceSlices (cluster-wide exclusive / shared / partitionable pools, a zoned pool, a node-local pool on an initialised unmanaged node), DeviceClasses, ResourceClaims already allocated in-cluster to a live pod, 2-10 pods referencing 0-2 unallocated ResourceClaims (some shared between pods; exact counts, capacity requests, driver/attribute-equality CEL selectors); 30% of the worlds first run a warm-up pass whose NodeClaims are created, launched and left uninitialised (in-flight nodes whose devices are template devices); the real deviceallocation controller is hydrated and reconciled, then the real Provisioner.Schedule (IgnoreDRARequests=false, parallelism 1/4/8) is judged from Results.DRAClaimAllocationMetadata against the generated device definitions. A reserved case is non-trivial when a NodeClaim or a reserved-offering deferral was judged; distinct by (gate, #pinned claims, multi-id pins, narrowed pins, #fully committed ids, zero-capacity ids, #deferred pods, failed pods, #pools, own catalogs, parallelism); DRA cases are distinct by (device kinds, #claims allocated, sharing shape, parallelism).",
 		Cases: cases, Run: run,
 		RaceFrac: map[string]float64{"quick": 0.34, "thorough": 0.1},
 		MinObserved: map[string]int{"claims_pinned": 40, "reservation_ids_fully_committed": 20, "pods_deferred_reserved": 20, "gate_off_claims_checked": 10,
-			"claims_pinned_to_several_ids": 5, "failed_pods_checked": 5},
+			"claims_pinned_to_several_ids": 5, "failed_pods_checked": 5, "opener_checks": 50, "claims_pin_narrower_than_opener_alone": 5,
+			"dra_device_allocations_checked": 300, "dra_exclusive_devices_checked": 200, "dra_shared_devices_with_several_allocations": 15,
+			"dra_counters_checked": 100, "dra_targets_with_several_dra_pods": 50, "dra_template_device_allocations": 100, "dra_in_cluster_device_allocations": 100},
 	})
 }
